@@ -141,7 +141,7 @@ impl<'a> G<'a> {
             15 => {
                 self.tag("typeof-hides-construct");
                 let a = self.num(d - 1);
-                let hidden = self.any(d - 1);
+                let hidden = self.typeof_operand(d - 1);
                 format!("({} :: typeof({}))", a, hidden)
             }
             16 => {
@@ -156,7 +156,7 @@ impl<'a> G<'a> {
             18 => {
                 self.tag("typeof-hides-construct");
                 let a = self.num(d - 1);
-                let hidden = self.any(d - 1);
+                let hidden = self.typeof_operand(d - 1);
                 format!("id<<typeof({})>>({})", hidden, a)
             }
             19 => {
@@ -295,6 +295,23 @@ impl<'a> G<'a> {
         }
     }
 
+    /// what a `typeof(…)` hides: any expression, or (half of the time) a call of a function expression whose BODY has
+    /// statements with a compound assignment, a floor division and an interpolated string — the scope visitors
+    /// must walk into the operand of `typeof` as well (never evaluated at run time)
+    fn typeof_operand(&mut self, d: usize) -> String {
+        if self.rng.chance(1, 2) {
+            self.tag("typeof-hides-function-body");
+            let v = self.fresh("tv");
+            match self.rng.below(3) {
+                0 => format!("(function() local {v} = 0 {v} += 1 return {v} end)()", v = v),
+                1 => format!("(function() local {v} = {{n = 7}} {v}.n //= 2 {v}[`n`] -= 1 return {v}.n // 1 end)()", v = v),
+                _ => format!("(function({v}) for i = 1, 2 do if i == 1 then continue end {v} ..= `{{i}}` end return {v} end)(\"\")", v = v),
+            }
+        } else {
+            self.any(d)
+        }
+    }
+
     /// a condition of an if-expression whose results matter: truthy at run time more often than not
     fn ifx_condition(&mut self, d: usize) -> String {
         match self.rng.below(7) {
@@ -309,8 +326,28 @@ impl<'a> G<'a> {
     }
 
     /// then-result; the flag says "may be falsy at run time"
+    /// an if-expression whose FIRST condition is statically falsy and one of whose `elseif` conditions is only known at
+    /// run time (truthy there), yielding nil / false — while the branch a too-eager static evaluation lands on is
+    /// truthy: as a branch RESULT it must not be taken for statically truthy
+    fn ifx_nested_falsy(&mut self) -> String {
+        self.tag("if-expression-nested-falsy-in-result");
+        let c0 = *self.rng.pick(&["false", "nil", "(\"a\" == \"b\")"]);
+        let t0 = *self.rng.pick(&["1", "\"s\"", "true"]);
+        let c1 = *self.rng.pick(&["flag1()", "F.on", "T.x"]);
+        let r1 = *self.rng.pick(&["nil", "false", "F.off"]);
+        let t2 = *self.rng.pick(&["2", "\"e\"", "{}"]);
+        let body = if self.rng.chance(1, 2) {
+            format!("if {} then {} elseif {} then {} elseif true then 9 else {}", c0, t0, c1, r1, t2)
+        } else {
+            format!("if {} then {} elseif {} then {} else {}", c0, t0, c1, r1, t2)
+        };
+        if self.rng.chance(1, 2) { format!("({})", body) } else { body }
+    }
+
     fn ifx_then_result(&mut self, d: usize) -> (String, bool) {
-        match self.rng.below(9) {
+        match self.rng.below(12) {
+            9 | 10 => (self.ifx_nested_falsy(), true),
+            11 => (self.any(d), true),
             0 => ("nil".to_owned(), true),
             1 => ("false".to_owned(), true),
             2 => ("F.off".to_owned(), true),
@@ -361,7 +398,7 @@ impl<'a> G<'a> {
                         1 => "F.off".to_owned(),
                         _ => self.boolean(d.saturating_sub(1)),
                     };
-                    let a = self.num(d.saturating_sub(1));
+                    let (a, _) = self.ifx_then_result(d.saturating_sub(1));
                     format!("(if {} then {} elseif {} then {} else {})", c0, a, c, t, e)
                 } else {
                     format!("(if {} then {} else {})", c, t, e)
@@ -546,7 +583,41 @@ impl<'a> G<'a> {
         self.tag("continue");
         let i = self.fresh("i");
         let c = self.boolean(d);
-        match self.rng.below(15) {
+        match self.rng.below(18) {
+            15 | 16 | 17 => {
+                // the loop body FIRST holds a function expression / `function name()` statement whose body has a loop
+                // WITHOUT `continue` (its frame must be popped all the same), THEN a nested `continue` of the outer loop
+                self.tag("continue-after-function-with-plain-loop");
+                let g = self.fresh("Gf");
+                let j = self.fresh("j");
+                let inner = match self.rng.below(3) {
+                    0 => format!("for {j} = 1, 2 do emit({j}) end", j = j),
+                    1 => format!("local {j} = 0 while {j} < 2 do {j} += 1 end", j = j),
+                    _ => format!("local {j} = 0 repeat {j} += 1 until {j} >= 2", j = j),
+                };
+                let func = match self.rng.below(4) {
+                    3 => {
+                        // … or the plain loop directly in the body (no function barrier)
+                        self.tag("continue-after-plain-inner-loop");
+                        inner.clone()
+                    }
+                    0 => format!("function {g}(n) {inner} return n end emit({g}({i}))", g = g, inner = inner, i = i),
+                    1 => format!("local {g} = function(n) {inner} return n end emit({g}({i}))", g = g, inner = inner, i = i),
+                    _ => format!("emit((function(n) {inner} return n end)({i}))", inner = inner, i = i),
+                };
+                let head = match self.rng.below(3) {
+                    0 => format!("for {i} = 1, 3 do", i = i),
+                    1 => format!("local {i} = 0 while {i} < 3 do {i} += 1", i = i),
+                    _ => format!("for _, {i} in ipairs({{1, 2, 3}}) do", i = i),
+                };
+                if self.rng.chance(1, 3) {
+                    // … or the `continue` FIRST and the plain loop after it: the outer loop must still be wrapped
+                    self.tag("continue-before-plain-inner-loop");
+                    self.push(format!("{head} if {i} == 2 then continue end {func} emit(\"tail\", {i}) end", head = head, func = func, i = i));
+                } else {
+                    self.push(format!("{head} {func} if {i} == 2 then continue end emit(\"tail\", {i}) end", head = head, func = func, i = i));
+                }
+            }
             0 => {
                 self.tag("continue-numeric-for");
                 self.push(format!("for {i} = 1, 4 do if {i} % 2 == 0 then continue end emit({i}) if {i} == 3 then break end end", i = i));
@@ -743,7 +814,7 @@ impl<'a> G<'a> {
             3 => {
                 self.tag("type-typeof-annotation");
                 let x = self.fresh("tq");
-                let hidden = self.any(d);
+                let hidden = self.typeof_operand(d);
                 let a = self.num(d);
                 self.push(format!("local {}: typeof({}) = {} emit({})", x, hidden, a, x));
             }
